@@ -275,6 +275,7 @@ def run_history(s, ctx, hseed, nsteps, force_zero_did=False, wrap=False, big=Fal
             if op[0] == 'blockfail':
                 # a call that fails inside a payload-override / suppress-positive-response block (the exception leaves the block); the frames used do not change the ECU
                 which = rng.choice(['override-negative', 'override-unexpected', 'suppress-negative', 'override-literal-error'])
+                late['on'] = False
                 try:
                     if which == 'override-negative':
                         with client.payload_override(b'\x22\xff\xfe'):            # a record nobody wrote: NRC 0x31
@@ -475,10 +476,10 @@ def run_history(s, ctx, hseed, nsteps, force_zero_did=False, wrap=False, big=Fal
             else:
                 got = verdict.replace('other:', '')
             was_late = late['on'] and len(frames) > nfr and late['reply'] is not None
-            if was_late or rng.random() < 0.1:
+            if conn.pending or rng.random() < 0.1:
                 # time passes between two calls (the virtual clock only moves inside waits otherwise): a reply that was still on its way when the caller
                 # gave up is in the transport's queue by the time of the next call - which must flush it, not take it for its answer
-                cl.CLOCK.now += 400 * cl.TICK
+                cl.CLOCK.now = max([cl.CLOCK.now] + [t_ for t_, _ in conn.pending]) + 400 * cl.TICK
             full = 'rig.call %s %s%s' % (cfg_line(st), line, ' late=1' if was_late else '')
             want = drv.ask(full)
 
